@@ -5,6 +5,7 @@ package config_test
 import (
 	"encoding/json"
 	"fmt"
+	"net"
 	"net/netip"
 	"sort"
 	"strings"
@@ -40,6 +41,17 @@ func c14ParseCheck(c c14ParseCase) (out [][2]string) {
 	}
 	doc := ref.Doc{Ifaces: []ref.Iface{{Scalars: ref.Table{"name": "eth0", "advertise": true}, RDNSS: []ref.Table{{"servers": c.Servers}}}}}
 	cfg, err := config.Parse(strings.NewReader(doc.TOML()), c02Epoch)
+	// The same address spelled twice is a duplicate: the parser may refuse the list (it
+	// does); if it accepts it the advertised list must still be free of duplicates.
+	seen, dup := map[netip.Addr]bool{}, false
+	for _, s := range c.Servers {
+		a := netip.MustParseAddr(s)
+		dup = dup || seen[a]
+		seen[a] = true
+	}
+	if err != nil && dup {
+		return out
+	}
 	if err != nil {
 		bad("C14:parse:rejected", "%v", err)
 		return out
@@ -63,7 +75,9 @@ func c14ParseCheck(c c14ParseCase) (out [][2]string) {
 			wild = true
 			continue
 		}
-		static = append(static, netip.MustParseAddr(s).String())
+		if a := netip.MustParseAddr(s).String(); !slicesContains(static, a) {
+			static = append(static, a)
+		}
 	}
 	sort.Slice(static, func(i, j int) bool { return netip.MustParseAddr(static[i]).Less(netip.MustParseAddr(static[j])) })
 	want := static
@@ -107,10 +121,74 @@ func c14ParseCheck(c c14ParseCase) (out [][2]string) {
 	return out
 }
 
+// c14GroupAddresser: interface index i (1-based) has the addresses fd00:0:0:i::1 and
+// 2001:db8:0:i::1.
+type c14GroupAddresser struct{}
+
+func (c14GroupAddresser) AddressesByIndex(i int) ([]system.IP, error) {
+	return []system.IP{ref.IP(fmt.Sprintf("2001:db8:0:%x::1/64", i), ""), ref.IP(fmt.Sprintf("fd00:0:0:%x::1/64", i), ""), ref.IP("fe80::1/64", "")}, nil
+}
+func (c14GroupAddresser) LoopbackRoutes() ([]system.Route, error) { return nil, nil }
+
+// c14GroupCheck: interfaces configured together (names = [...]) or one by one, each with
+// the :: wildcard, every one prepared (as each interface's advertiser does) before any
+// RA is built, in every preparation order: the wildcard of each interface resolves to an
+// address of that interface.
+func c14GroupCheck(grouped bool, order []int) (out [][2]string) {
+	names := []string{"lan0", "lan1", "lan2"}
+	var doc ref.Doc
+	rd := []ref.Table{{"servers": []string{"::", "2001:db8::53"}}}
+	if grouped {
+		doc.Ifaces = []ref.Iface{{Scalars: ref.Table{"names": names, "advertise": true}, RDNSS: rd, Prefix: []ref.Table{{}}}}
+	} else {
+		for _, n := range names {
+			doc.Ifaces = append(doc.Ifaces, ref.Iface{Scalars: ref.Table{"name": n, "advertise": true}, RDNSS: rd, Prefix: []ref.Table{{}}})
+		}
+	}
+	cfg, err := config.Parse(strings.NewReader(doc.TOML()), c02Epoch)
+	if err != nil || len(cfg.Interfaces) != 3 {
+		return [][2]string{{"C14:group:rejected", fmt.Sprintf("%v (%d interfaces)", err, len(cfg.Interfaces))}}
+	}
+	system.VerifSetAddresser(c14GroupAddresser{})
+	defer system.VerifSetAddresser(nil)
+	for _, i := range order {
+		for _, p := range cfg.Interfaces[i].Plugins {
+			if err := p.Prepare(&net.Interface{Index: i + 1, Name: names[i]}); err != nil {
+				return [][2]string{{"C14:group:prepare", err.Error()}}
+			}
+		}
+	}
+	for i, ifi := range cfg.Interfaces {
+		ra, _, err := ifi.RouterAdvertisement(true)
+		if err != nil {
+			out = append(out, [2]string{"C14:group:build", fmt.Sprintf("grouped=%t order=%v: %s: %v", grouped, order, ifi.Name, err)})
+			continue
+		}
+		want := fmt.Sprintf("fd00:0:0:%x::1", i+1)
+		var pfx []string
+		for _, o := range ra.Options {
+			if p, ok := o.(*ndp.PrefixInformation); ok {
+				pfx = append(pfx, fmt.Sprintf("%s/%d", p.Prefix, p.PrefixLength))
+			}
+		}
+		if wantP := fmt.Sprintf("[2001:db8:0:%x::/64 fd00:0:0:%x::/64]", i+1, i+1); fmt.Sprint(pfx) != wantP {
+			out = append(out, [2]string{"C13:group:not-own-networks", fmt.Sprintf("grouped=%t prepared in order %v: %s advertises prefixes %v, want the /64s of its own addresses %s", grouped, order, ifi.Name, pfx, wantP)})
+		}
+		for _, o := range ra.Options {
+			if r, ok := o.(*ndp.RecursiveDNSServer); ok {
+				if len(r.Servers) == 0 || r.Servers[0].String() != want {
+					out = append(out, [2]string{"C14:group:not-own-address", fmt.Sprintf("grouped=%t prepared in order %v: %s advertises %v, want its own address %s first", grouped, order, ifi.Name, r.Servers, want)})
+				}
+			}
+		}
+	}
+	return out
+}
+
 func TestVerifC14Parse(t *testing.T) {
 	r := ev.Begin("C14", "parse")
 	defer r.End(t)
-	r.Rule = "static server lists = all subsets (size<=3) of {::, 2001:db8::54, 2001:db8::53, fd00::53} in all permutations, parsed by the real config.Parse, x 2 interface address lists; the option is built 3 times from the same plugin instance; oracle: best interface address first (when :: is present), static servers sorted ascending without duplicates, identical across builds, earlier RAs not rewritten, configuration unchanged; non-trivial = list has >=2 entries; distinct = distinct case"
+	r.Rule = "static server lists = all subsets (size<=3) of {::, 2001:db8::54, 2001:db8::53, fd00::53, and a second spelling of the last two} in all permutations, parsed by the real config.Parse, x 2 interface address lists; the option is built 3 times from the same plugin instance; oracle: best interface address first (when :: is present), static servers sorted ascending without duplicates, identical across builds, earlier RAs not rewritten, configuration unchanged; plus three interfaces configured as one names group / one by one, each with the wildcard, prepared in all 6 orders before any RA is built: each advertises its own address; non-trivial = list has >=2 entries; distinct = distinct case"
 	if r.Replay != nil {
 		var c c14ParseCase
 		if err := json.Unmarshal(r.Replay, &c); err != nil {
@@ -123,7 +201,17 @@ func TestVerifC14Parse(t *testing.T) {
 		}
 		return
 	}
-	pool := []string{"::", "2001:db8::54", "2001:db8::53", "fd00::53"}
+	enum.Permutations([]int{0, 1, 2}, func(a, b int) bool { return a == b }, func(order []int) bool {
+		for _, g := range []bool{true, false} {
+			r.Case(fmt.Sprint("group ", g, order), true)
+			for _, v := range c14GroupCheck(g, append([]int(nil), order...)) {
+				r.Violation(v[0], v[1], nil)
+			}
+		}
+		return true
+	})
+	// (the last two are other spellings of an address already in the pool)
+	pool := []string{"::", "2001:db8::54", "2001:db8::53", "fd00::53", "2001:0db8::53", "FD00:0:0:0:0:0:0:53"}
 	enum.Subsets(len(pool), 3, func(ix []int) bool {
 		if len(ix) == 0 {
 			return true
@@ -143,6 +231,31 @@ func TestVerifC14Parse(t *testing.T) {
 			}
 			return true
 		})
+		return true
+	})
+}
+
+func slicesContains(xs []string, x string) bool {
+	for _, y := range xs {
+		if y == x {
+			return true
+		}
+	}
+	return false
+}
+
+// TestVerifC13Group: the same group scenario, for the ::/64 prefix wildcard (C13).
+func TestVerifC13Group(t *testing.T) {
+	r := ev.Begin("C13", "group")
+	defer r.End(t)
+	r.Rule = "three interfaces configured as one names group / one by one, each with the ::/64 wildcard, parsed by the real config.Parse, every interface prepared through the real Prepare (address source per interface index) in all 6 orders before any RA is built: each interface advertises exactly the /64s of its own addresses; non-trivial = every case"
+	enum.Permutations([]int{0, 1, 2}, func(a, b int) bool { return a == b }, func(order []int) bool {
+		for _, g := range []bool{true, false} {
+			r.Case(fmt.Sprint("group ", g, order), true)
+			for _, v := range c14GroupCheck(g, append([]int(nil), order...)) {
+				r.Violation(v[0], v[1], nil)
+			}
+		}
 		return true
 	})
 }
